@@ -18,8 +18,24 @@ def common_head(u):
     u.env("tokio.rs")
 
 
-def messages_mod(u, m, stub_ctor=False):
+def tlv_types(u, t):
+    u.raw("pub mod tlv {\nuse super::*;\n")
+    u.item(t, "TlvEntry", "struct")
+    u.item(t, "SerializedTlvStream", "struct")
+    u.raw("}\n")
+
+
+def messages_mod(u, m, requests=False, t=None, fee="none"):
+    """Real declarations of src/messages.rs.  fee: none | stub | real"""
+    if requests:
+        tlv_types(u, t)
     u.raw("pub mod messages {\nuse super::*;\n")
+    if requests:
+        u.raw("use crate::tlv::SerializedTlvStream;\n")
+        u.raw("pub struct ShortChannelId { pub v: u64 }   // env mirror of cln_rpc::primitives::ShortChannelId (opaque)\n")
+        u.item(m, "HtlcAcceptedRequest", "struct")
+        u.item(m, "Onion", "struct")
+        u.item(m, "Htlc", "struct")
     u.item(m, "HtlcAcceptedResponse", "enum")
     u.raw("impl Clone for HtlcAcceptedResponse {\n #[verifier::external_body]\n fn clone(&self) -> (r: Self) ensures r == *self { unimplemented!() }\n}\n")
     u.item(m, "HtlcFailReason", "enum")
@@ -32,6 +48,11 @@ def messages_mod(u, m, stub_ctor=False):
     u.raw("}\n")
     u.impl(m, "HtlcAcceptedResponse", ["resolve", "temporary_node_failure", "temporary_trampoline_failure",
                                        "trampoline_fee_or_expiry_insufficient"], "messages")
+    if fee != "none":
+        im = m.find("TrampolineRoutingPolicy", "impl")
+        u.raw("impl TrampolineRoutingPolicy {\n")
+        u.fn(m, m.find_fn_in(im, "fee_sufficient"), "messages::TrampolineRoutingPolicy::fee_sufficient", stub=(fee == "stub"))
+        u.raw("}\n")
     u.raw("}\n")
 
 
@@ -48,7 +69,9 @@ def build(u):
         u.ghost_callees[g] = "Tracked(w)"
     common_head(u)
     u.spec("failmsg_spec.rs", shared=True)
+    u.spec("fee_spec.rs", shared=True)
     u.spec("iface.rs", shared=True)
+    u.spec("paystate_shared.rs", shared=True)
     u.spec("lifecycle.rs")
     messages_mod(u, m)
     u.raw("pub mod store {\nuse super::*;\nuse crate::messages::TrampolineInfo;\n")
